@@ -56,6 +56,48 @@ def canon_eq(term, spec):
 
 
 # =========================================================================================
+def resolve_overlays(seq):
+    """A vector created at its final length (`vec![p; total]`) and then overwritten in place: [fill_to(T, p), overlay.., ..] is
+    rewritten to the equivalent append form  e0 .. ek-1, fill_to(D, z), fill_to(T, p)  when the overlays, applied in order (a later
+    one wins where they overlap), cover exactly a prefix [0, D): explicit elements on [0, k), one fill value z on [k, D). The
+    prefix must lie inside the vector (D <= T: decided by A4 on the index / split obligations, not here). None if not of that shape."""
+    if not (seq and seq[0][0] == "fill_to" and all(x[0] == "overlay" for x in seq[1:])):
+        return None
+    total, pad = seq[0][1], seq[0][2]
+    elems = {}           # position -> element (constant positions only)
+    fills = []           # (lo, hi, value), in application order
+    for _, lo, hi, content in seq[1:]:
+        if content[0] == "elems":
+            if lo[0] != "int":
+                return None
+            for k, x in enumerate(content[1]):
+                elems[lo[1] + k] = x
+        else:
+            # a fill hides what earlier writes put into its range
+            if lo[0] != "int":
+                return None
+            if hi[0] == "int":
+                for pos in [q for q in elems if lo[1] <= q < hi[1]]:
+                    del elems[pos]
+            else:
+                for pos in [q for q in elems if q >= lo[1]]:
+                    del elems[pos]
+            fills.append((lo, hi, content[1]))
+    if len(fills) != 1:
+        return None
+    flo, fhi, z = fills[0]
+    k = len(elems)
+    if sorted(elems) != list(range(k)):
+        return None
+    # the fill starts at or before the end of the explicit prefix (what it covered of the prefix was overwritten afterwards)
+    if not (flo[0] == "int" and flo[1] <= k):
+        return None
+    # explicit elements written after the fill that lie beyond a constant fill end would extend the prefix: not this shape
+    if fhi[0] == "int" and fhi[1] < k:
+        return None
+    return tuple(("elem", elems[i]) for i in range(k)) + (("fill_to", fhi, z), ("fill_to", total, pad))
+
+
 @at_log_levels("flipdot_core")
 def run_c07(chk, prog):
     chk.notes.append("A3/A7/A2: Page::new's byte sequence is extracted symbolically and compared with [id, 0x10, 0, 0] ++ zeros up to data_bytes ++ 0xFF up to total_bytes, "
@@ -81,6 +123,8 @@ def run_c07(chk, prog):
             seq = None
             if b[0] == "adt" and b[1] == COW and b[3] == "Owned" and b[4][0][0] == "seq":
                 seq = b[4][0][1]
+            if seq is not None and any(x[0] == "overlay" for x in seq):
+                seq = resolve_overlays(seq)
             chk.ob("C07.O1", "the new page's bytes are an owned vector built by push/extend/resize", seq is not None, key="page:new:bytes-shape", where=where, detail=fmt_term(b)[:100])
             if seq is not None:
                 idv = ("proj", ("sym", "id", "?"), ("field", 0, "u8"))
